@@ -171,11 +171,13 @@ class IndependentComponentsCopula(LevyCopula):
 
         res = 0
         for k, u in enumerate(us):
-            if not np.isinf(u):
+            if u != np.inf:
                 product = np.prod(kronecker_symbols[:k]) * np.prod(
                     kronecker_symbols[k + 1 :]
                 )
-                res += u * product
+                if product:
+                    # u itself when every other argument is +inf (also for u = -inf: the limit of the finite values)
+                    res += u
 
         return res
 
